@@ -9,10 +9,15 @@ def run(tier, seed, replay=None):
     check = Check('C14', tier, seed)
     prove(check, 'theories/Props_C14.v', THEOREMS)
     # shards must be exactly 16: the per-level sweep is spread over seed % 16
-    differential(check, 'C14', 'transforms', 'c14', tier, seed * 16, replay, 40, 3000, extract_between_bars, shards=16)
+    is_dec = bool(replay) and any(l.startswith('in ') for l in open(replay).read().splitlines())
+    if not replay or not is_dec:
+        differential(check, 'C14', 'transforms', 'c14', tier, seed * 16, replay, 40, 3000, extract_between_bars, shards=16)
+    # the rejection clause: bytes that are not valid for a codec are an error, never a wrong value
+    if not replay or is_dec:
+        differential(check, 'C14d', 'decoders', 'c06', tier, seed + 5, replay, 120, 6000, extract_between_bars, timeout=3000)
     check.coverage['rule'] = ('every run: each of gzip, zlib, zstd, lz4, brotli generic/text/font at EVERY level (default, three presets, explicit 0..9 / 1..22 / 0..11) on an empty, a tiny, '
                               'a repetitive, a text-like and a large incompressible payload (32 KiB-1 .. 200 KiB, around the libraries\' block sizes) (spread over 16 shards); plus seeded cases: random algorithm/level x payload class {empty, tiny, incompressible, repetitive, '
-                              'text, large incompressible (every 10th), ~1 MiB repetitive / ~1 MiB incompressible / noise-run-noise (every 50th each)}, codec round-trips (string, bytes, bincode struct / Vec<String> / Option<(u32, Vec<u8>)>), wire compositions of 0-5 items; '
+                              'text, large incompressible (every 10th), ~1 MiB repetitive / ~1 MiB incompressible / noise-run-noise (every 50th each)}, codec round-trips (string, bytes, bincode struct / Vec<String> / Option<(u32, Vec<u8>)>), wire compositions of 0-5 items; and the rejection clause on the decoders engine of C06 (valid encodings of every codec perturbed by truncation - also inside a multi-byte character -, bit flips, adversarial lengths, garbage tails, invalid UTF-8 fragments: the string codec must answer ok exactly on valid UTF-8 and every codec must agree with its model on value or error); '
                               'non-trivial = distinct case line')
     check.coverage['trusted_base'] = TRUSTED_BASE_COMMON + [
         'NOT verified (third-party): flate2/miniz_oxide, zstd (C), lz4_flex, brotli: decompress(compress b) = b is their contract, checked by the run for every algorithm x level',
